@@ -4,6 +4,8 @@ CONSTANTS
   T = 3
   Builder = "new"
   ExcludeTouch = FALSE
+  U = 1
+  TruncEnd = FALSE
   ExcludeZeroPairs = FALSE
 INVARIANT TotalOrder
 INVARIANT Sortable
